@@ -226,3 +226,22 @@ PROPS["C20"] = {
     "jobs": [{"engine": "netw", "race": True, "test": "TestC20", "solo": True, "env": {"GORACE": "log_path={cwd}/race halt_on_error=0", "VERIF_RACE_LOG": "{cwd}/race"},
               "quick": {"shards": 1, "checks": 4, "timeout": 600, "shrinktime": "1s"}, "thorough": {"shards": 1, "checks": 60, "timeout": 3400, "shrinktime": "1s"}}],
 }
+
+_PROC_ASSUME = [
+    "the real pike binary is built by the driver from /repo's current tree (go build -tags verif) and run with --config <file> --admin <addr>, GO_ENV=dev",
+    "real processes, sockets and time: oracles are differential or interval based and hold under any timing",
+]
+PROPS["C16"] = {
+    "level": "exploration",
+    "rule": ("Scenario = sequence of 2-6 valid configurations (each a mutation of the previous one by 1-3 edits, or a fresh draw): servers on 3 address slots (locations, cache binding, compress profile, min-length unset/100/1kb/4kb, filter unset/set), "
+             "locations (hosts, prefixes, rewrite, added request/response headers and query), upstreams (server, policy, accept-encoding), compress profiles incl. an override of bestCompression and its removal, caches added/removed. "
+             "The live process receives each configuration by one in-place pwrite of constant length and acknowledges with 'update config success'; a second process is started fresh with the final configuration. "
+             "Oracle = a battery of ~150 probes per server (routing for 3 hosts x 3 paths with upstream echo of path/query/added headers/Accept-Encoding, compression for 9 sizes x 3 types x 2 encodings with body hash, cacheable bodies = best-compression fingerprint, cache sharing) must give identical observations in both processes; "
+             "an entry cached before the sequence in a surviving cache is still a hit; removed servers stop listening after the 10 s grace (checked once per process in quick). evaluations = probes compared. Non-trivial = a server modified in place AND an optional field going from set to unset."),
+    "assumptions": _PROC_ASSUME + ["parameters of a surviving cache, log format and admin settings are never changed (documented restart-only)",
+                                   "servers that are removed and added again later in the same sequence are excluded while the finding server-readded-within-close-grace is open (counted)"],
+    "jobs": [
+        {"engine": "proc", "needs_pike": True, "test": "TestC16", "quick": {"shards": 16, "checks": 4, "timeout": 600, "shrinktime": "40s"}, "thorough": {"shards": 16, "checks": 120, "timeout": 3400, "shrinktime": "120s"}},
+        {"engine": "proc", "needs_pike": True, "test": "TestC16ProbeReadded", "rapid": False, "probe": True, "env": {"VERIF_PORT_BASE": "28000", "VERIF_PORT_SPAN": "200"}, "quick": {"shards": 1, "timeout": 120}, "thorough": {"shards": 1, "timeout": 120}},
+    ],
+}
